@@ -21,7 +21,7 @@ func init() {
 
 // what a URL slot can be assigned: a genuine answer or a fault
 var ocspAssign = append([]string{"good", "revoked", "unknown-status"}, sims.OCSPFaults...)
-var crlAssign = []string{"clean", "lists", "delta-ok", "http-404", "http-500", "garbage", "empty", "truncated", "delta-unreachable", "delta-garbage", "err", "timeout", "body-err", "expired", "wrong-signer"}
+var crlAssign = []string{"clean", "lists", "delta-ok", "http-404", "http-500", "garbage", "empty", "truncated", "delta-unreachable", "delta-garbage", "err", "timeout", "body-err", "expired", "wrong-signer", "freshest-ldap-only", "freshest-ldap-and-https", "redirect-loop", "redirect-endless", "expired-idp-only-ca", "wrong-signer-idp-only-ca"}
 var badKinds = []string{"https", "ldap", "ftp", "file", "relative", "empty", "unparsable", "ctrl"}
 
 // Case is one execution.
@@ -327,10 +327,17 @@ func run(r *core.Run) int {
 	}
 	// distribution points that differ only in their query string / in the letter
 	// case of their path: a genuine first point must not vouch for a faulty second
-	for _, kind := range []string{"httpq", "httpc"} {
+	for _, kind := range []string{"httpq", "httpc", "grouped"} {
 		for _, f := range crlAssign {
 			for _, cache := range []string{"", "healthy"} {
 				for _, order := range [][]slot{{{kind, "clean"}, {kind, f}}, {{kind, f}, {kind, "clean"}}} {
+					if kind == "grouped" {
+						// ordinary URLs, written into ONE DistributionPoint of the extension
+						pl := mkPlan(nil, []slot{{"http", order[0].beh}, {"http", order[1].beh}})
+						pl.Shape.CDPGrouped = true
+						cases = append(cases, mk([]sims.CertPlan{pl}, "validate", "http", cache, false))
+						continue
+					}
 					cases = append(cases, mk([]sims.CertPlan{mkPlan(nil, order)}, "validate", "http", cache, false))
 				}
 			}
